@@ -215,15 +215,23 @@ func (u *uploader) ListParts(bucket, object string, uploadID UploadID, marker in
 		StorageClass:     "STANDARD", // FIXME
 	}
 
+	// The marker is the last part number of the previous page; anything
+	// outside the uploaded range simply leaves nothing to list.
+	if marker < 0 || marker >= len(mpu.parts) {
+		return &result, nil
+	}
+
 	var cnt int64
-	for partNumber, part := range mpu.parts[marker:] {
+	last := marker
+	for partNumber := marker + 1; partNumber < len(mpu.parts); partNumber++ {
+		part := mpu.parts[partNumber]
 		if part == nil {
 			continue
 		}
 
 		if cnt >= limit {
 			result.IsTruncated = true
-			result.NextPartNumberMarker = partNumber
+			result.NextPartNumberMarker = last
 			break
 		}
 
@@ -234,6 +242,7 @@ func (u *uploader) ListParts(bucket, object string, uploadID UploadID, marker in
 			LastModified: part.LastModified,
 		})
 
+		last = partNumber
 		cnt++
 	}
 
